@@ -58,7 +58,7 @@ class C04(Spec):
             'set_input_defaults); index forms int/slice/array/tuple/ellipsis with negative entries, flat, non-flat '
             'and default flat_src_indices; run-once and NonlinearBlockGS (3 iterations with changing sources); '
             'a case is non-trivial when it is a distinct model')
-    assumptions = ['unit factors of the 9 units used are exact rationals taken from unit_library.ini (C06 covers the unit algebra)',
+    assumptions = ['exact rational factors of the 33 unit strings used (prefix, reciprocal, quotient, product, power and offset forms) are written down independently of openmdao.utils.units (C06 covers the unit algebra)',
                    'single process, DefaultTransfer; index grammar of C05 (at most one index array per tuple)']
 
     def __init__(self):
@@ -120,13 +120,35 @@ class C04(Spec):
             while prod(shape) > 24:
                 shape[rng.randrange(rank)] -= 1
             n = prod(shape)
-            ref = ref0 = None
-            if rng.random() < 0.3:
-                r0 = rng.choice([F(0), F(1, 2), F(-1)])
-                ref0 = [r0.numerator, r0.denominator]
-                r1 = r0 + rng.choice([F(2), F(4), F(1, 2)])
-                ref = [r1.numerator, r1.denominator]
+            ref = ref0 = res_ref = None
+            if rng.random() < 0.45:
+                # scalar / array mixes of ref0, ref, res_ref; positive and negative; a1 = ref - ref0 never 0
+                A0 = [F(0), F(1, 2), F(-1), F(3), F(-1, 2)]
+                A1 = [F(2), F(4), F(1, 2), F(-2), F(-1), F(1, 4), F(-4), F(3), F(-5)]
+                m0 = rng.choice(['none', 'scalar', 'array'])
+                m1 = rng.choice(['none', 'scalar', 'array', 'array'])
+                if m0 == 'none' and m1 == 'none':
+                    m1 = 'array'
+                a0 = [F(0)] * n if m0 == 'none' else ([rng.choice(A0)] * n if m0 == 'scalar'
+                                                       else [rng.choice(A0) for _ in range(n)])
+                if m1 == 'none':
+                    rr = [F(1)] * n
+                elif m1 == 'scalar':
+                    rr = [rng.choice([F(5), F(-5), F(8)])] * n
+                else:
+                    rr = [a + rng.choice(A1) for a in a0]
+                fr = lambda v: [v.numerator, v.denominator]
+                if m0 != 'none':
+                    ref0 = {'s': fr(a0[0])} if m0 == 'scalar' else {'a': [fr(v) for v in a0]}
+                if m1 != 'none':
+                    ref = {'s': fr(rr[0])} if m1 == 'scalar' else {'a': [fr(v) for v in rr]}
+                mr = rng.choice(['none', 'none', 'scalar', 'array'])
+                if mr == 'scalar':
+                    res_ref = {'s': fr(rng.choice([F(2), F(-4), F(1, 2)]))}
+                elif mr == 'array':
+                    res_ref = {'a': [fr(rng.choice([F(2), F(-4), F(1, 2), F(3)])) for _ in range(n)]}
             case['sources'].append({'name': 'S%d' % k, 'shape': shape, 'units': None, 'ref': ref, 'ref0': ref0,
+                                    'res_ref': res_ref,
                                     'base': [rng.randrange(-8, 9) for _ in range(n)],
                                     'gain': [rng.randrange(-2, 3) for _ in range(n)],
                                     'disc': rng.random() < 0.25})
@@ -244,13 +266,18 @@ class C04(Spec):
         for k, (i, s) in enumerate(self.inputs_of(case)):
             chain = '[%s]' % '; '.join('(%s, %s)' % (boollit(lv['rflat']), idx_term(lv['ix'])) for lv in i['chain'])
             src = '[%s]' % '; '.join('((%d) # %d)' % tuple(v['q']) for v in res['src'][k])
-            a0, a1 = F(0), F(1)
-            if s.get('ref') is not None or s.get('ref0') is not None:
-                r0 = F(*s['ref0']) if s.get('ref0') is not None else F(0)
-                r1 = F(*s['ref']) if s.get('ref') is not None else F(1)
-                a0, a1 = r0, r1 - r0
+            n = prod(s['shape'])
+
+            def expand(spec, dflt):
+                if spec is None:
+                    return [dflt] * n
+                if 's' in spec:
+                    return [F(*spec['s'])] * n
+                return [F(*v) for v in spec['a']]
+            a0s = expand(s.get('ref0'), F(0))
+            a1s = [r - a for r, a in zip(expand(s.get('ref'), F(1)), a0s)]
             fac, off = conversion(s['units'], i['units'])
-            terms.append('(run_input %s %s %s %s %s %s %s)' % (zlist(s['shape']), chain, src, qlit(a0), qlit(a1),
+            terms.append('(run_input %s %s %s %s %s %s %s)' % (zlist(s['shape']), chain, src, qlist(a0s), qlist(a1s),
                                                              qlit(fac), qlit(off)))
         return '(VL [%s])' % '; '.join(terms)
 
